@@ -422,6 +422,23 @@ struct Model {
     return o;
   }
 
+  // ---- micro-steps (engine E2): the atomic steps of an expectation statement, C12 ----
+  void micro_begin(int slot, int shape, int obj, int k1, int lo, int hi) {
+    const Shape& sh = g_shapes[shape];
+    clear_slot(slot);
+    MExp& e = st.e[slot];
+    e.alive = 1; e.is_monitor = sh.mock == MOCK_WATCHED; e.obj = (uint8_t)obj; e.fn = (uint8_t)sh.fn; e.shape = (int16_t)shape; e.k1 = (int8_t)k1;
+    e.lo = (uint8_t)lo; e.hi = (uint8_t)hi; e.hooked = 0;
+  }
+  void micro_register(int slot, int q) { MExp& e = st.e[slot]; e.seqs[e.nseq++] = (int8_t)q; MSeq& s = st.s[q]; s.pend[s.n++] = (int8_t)slot; }
+  void micro_bounds(int slot, int lo, int hi) { st.e[slot].lo = (uint8_t)lo; st.e[slot].hi = (uint8_t)hi; }
+  void micro_hook(int slot) { st.e[slot].hooked = 1; st.e[slot].birth = ++st.clock; }
+  // one list of one mock function is decommissioned (mock destruction is not atomic as a whole)
+  void micro_decommission(int obj, int fn, bool saturated, Outcome& o) {
+    std::vector<int> l = saturated ? saturated_list(obj, fn) : active_list(obj, fn);
+    for (int s : l) { eol_report(s, R_PENDING_DESTROYED, o); st.e[s].hooked = 0; }
+  }
+
   // canonical key of the state: creation / saturation stamps replaced by ranks
   std::string key() const {
     MState c = st;
